@@ -18,15 +18,15 @@ RULE = ('two kinds of cases. (sim) histories of 2-6 steps on one simulated pool 
         'only with all workers dead, no internal error / deadlock in later runs, a worker whose death the pool handled in an earlier run is never offered work again, '
         'every live worker (restarted ones included) gets work when there is enough, restart_workers keeps the number of workers and leaves them alive. '
         '(os) histories of 1-6 steps on a real pool with thread/process/remote workers: add_worker, attach, run, restart_workers, SIGKILL a worker, a worker stuck in an '
-        'exception-swallowing target, add_worker whose registration hook raises, add_worker(REMOTE) to a dead port, then leave the with-block normally / by exception '
-        '/ close() / terminate() with close_timeout in {0.2, 1} and force in {None, True, False}. Oracle: afterwards every process/remote worker is dead and its '
+        'exception-swallowing target, add_worker whose registration hook raises, add_worker(REMOTE) to a dead port, a worker whose work fails during a run while a non-daemon thread keeps its process alive, then leave the with-block normally / by exception '
+        '/ close() / terminate() / close() inside the with-block interrupted by a KeyboardInterrupt thrown from the first clean-up thread with close_timeout in {0.2, 1} and force in {None, True, False}. Oracle: afterwards every process/remote worker is dead and its '
         'child gone within 2 s (unless force is False and a stuck worker exists); a failed add_worker leaves neither a process nor a registration. '
         'Non-trivial = (sim) >=2 runs or a restart / kill between runs, (os) >=1 process or remote worker in the pool; distinct = distinct case.')
 ASSUMPTIONS = ['sim part: same trusted base as C07 (conformance of the simulated workers)', 'os part: processes of a case = tagged processes that did not exist before it']
 SHRINK = 'greedy'
 SHRINK_RUNS = 60
 TIME_BUDGET = {'quick': 170, 'thorough': 1700}
-REQUIRED = {'quick': {'kind:sim': 2000, 'kind:os': 100, 'restart_workers': 500, 'kill_between_runs': 500, 'os:exit_exception': 8, 'os:stuck_worker': 8, 'os:failed_add': 8, 'os:sigkill': 5},
+REQUIRED = {'quick': {'kind:sim': 2000, 'kind:os': 100, 'restart_workers': 500, 'kill_between_runs': 500, 'os:exit_exception': 8, 'os:stuck_worker': 8, 'os:failed_add': 8, 'os:sigkill': 5, 'os:dead_worker_process_lingers': 8, 'os:close_interrupted_delivered': 8},
             'thorough': {'kind:sim': 20000, 'kind:os': 400}}
 
 
@@ -39,7 +39,7 @@ def shards(tier):
 
 
 _OS_STEPS = ['add:thread', 'add:process', 'add:process', 'add:remote', 'attach:process', 'run', 'run', 'restart', 'sigkill', 'stuck:process', 'stuck:remote', 'add_hook_raises',
-             'add_dead_port']
+             'add_dead_port', 'linger_die:process']
 
 
 def strategy(tier):
@@ -51,7 +51,7 @@ def os_strategy():
     return st.fixed_dictionaries({
         'kind': st.just('os'),
         'steps': st.lists(st.sampled_from(_OS_STEPS), min_size=1, max_size=6),
-        'exit': st.sampled_from(['normal', 'exception', 'close', 'terminate']),
+        'exit': st.sampled_from(['normal', 'exception', 'close', 'terminate', 'close_interrupted']),
         'close_timeout': st.sampled_from([0.2, 1]),
         'force': st.sampled_from([None, True, False]),
     })
@@ -109,14 +109,30 @@ def run_os(case, ctx):
 
     pool = HookPool(vtargets.sq, close_timeout=case['close_timeout'], name='c09pool')
     pool.force = case['force']
+    pool_thread = {'ident': None, 'fired': False}
+    if case['exit'] == 'close_interrupted':
+        # Ctrl-C while Pool.close() is waiting for its clean-up threads: the first worker's close() (which runs in such a thread) throws a
+        # KeyboardInterrupt at the thread that called Pool.close(); the with-block is then left by that exception (-> terminate())
+        from pyworkers.persistent_thread import PersistentThreadWorker
+        from pyworkers.utils import foreign_raise
+
+        class InterruptingThreadWorker(PersistentThreadWorker):
+            def close(self):
+                if pool_thread['ident'] is not None and not pool_thread['fired']:
+                    pool_thread['fired'] = True
+                    foreign_raise(pool_thread['ident'], KeyboardInterrupt)
+                return super().close()
+        pool.add_worker(InterruptingThreadWorker)
+        out.label('os:close_interrupted')
     stuck = False
+    lingering = False
     attached = []
     log = []
     nonthread = 0
     site = 'exit:' + case['exit'] + (':force_false' if case['force'] is False else '')
     try:
         def body():
-            nonlocal stuck, nonthread
+            nonlocal stuck, nonthread, lingering
             for s_ in case['steps']:
                 try:
                     if s_.startswith('add:'):
@@ -131,6 +147,8 @@ def run_os(case, ctx):
                         nonthread += 1
                     elif s_ in ('run', 'restart') and stuck:
                         continue      # a worker that never answers and never dies is outside the premise of run(); restart would wait for it
+                    elif s_ == 'restart' and lingering:
+                        continue      # restart() of a worker whose process does not exit is C17's business
                     elif s_ == 'run':
                         if pool.workers:
                             try:
@@ -155,6 +173,18 @@ def run_os(case, ctx):
                         stuck = True
                         nonthread += 1
                         out.label('os:stuck_worker')
+                    elif s_ == 'linger_die:process':
+                        # a worker whose work fails during a run (the pool is told about its death) while its process stays alive
+                        os.environ['VERIF_ESCAPE'] = escape
+                        w = bounded(pool.add_worker, 30, WorkerType.PROCESS, target=vtargets.linger_then_raise)
+                        lingering = True
+                        nonthread += 1
+                        out.label('os:dead_worker_process_lingers')
+                        try:
+                            r = bounded(pool.run, 60, iter(range(3)))
+                            log.append(['run', sorted(r) if r is not None else None])
+                        except PoolError:
+                            log.append(['run', 'PoolError'])
                     elif s_ in ('add_hook_raises', 'add_dead_port'):
                         out.label('os:failed_add')
                         n_before = len(pool.workers)
@@ -200,6 +230,20 @@ def run_os(case, ctx):
                     bounded(with_block, 120)
                 except KeyError:
                     pass
+            elif case['exit'] == 'close_interrupted':
+                def with_block2():
+                    import threading
+                    try:
+                        with pool:
+                            body()
+                            all_workers.extend(pool.workers)
+                            pool_thread['ident'] = threading.get_ident()
+                            pool.close()
+                            for _ in range(200):      # give a pending asynchronous exception a bytecode boundary to land on
+                                pass
+                    except KeyboardInterrupt:
+                        out.label('os:close_interrupted_delivered')
+                bounded(with_block2, 120)
             else:
                 body()
                 all_workers.extend(pool.workers)
@@ -208,13 +252,13 @@ def run_os(case, ctx):
             out.viol('pool_exit_blocked', site, 'leaving the pool did not return within the guard')
         el = time.monotonic() - t0
         out.nontrivial = nonthread > 0
-        exempt = stuck and case['force'] is False
+        exempt = (stuck or lingering) and case['force'] is False
         # every process / remote worker dead, its child gone
         time.sleep(0.1)
         left = [p for p in census(ctx.tag) if p not in before]
         left = wait_gone(left, 2.0)
         if left and not exempt:
-            out.viol('worker_process_outlived_pool', site + (':stuck' if stuck else ''), f'{len(left)} process(es) of the pool still alive 2 s after {case["exit"]} (stuck worker: {stuck}, force: {case["force"]})')
+            out.viol('worker_process_outlived_pool', site + (':stuck' if stuck else '') + (':lingering' if lingering else ''), f'{len(left)} process(es) of the pool still alive 2 s after {case["exit"]} (stuck worker: {stuck}, dead worker with a lingering process: {lingering}, force: {case["force"]})')
         for w in all_workers:
             if w.is_thread:
                 continue
